@@ -12,6 +12,8 @@ def _core(out, tier, seed, prop, quick_mc, thorough_mc, quick_rand, thorough_ran
         jobs["doc-" + cat] = core.doc_jobs(cat, nr, max(3, depth // 2), seed + 1)
         # random graphs with names and values outside the catalogues
         jobs["fuzz-" + cat] = core.fuzz_jobs(max(40, nr // 2), seed + 11, cat)
+        # every identified line of a document renamed in turn
+        jobs["renall-" + cat] = core.rename_jobs(cat, max(40, nr // 3), seed + 51)
         # a clone added under another identifier, then tag edits on both lines (AddClone)
         jobs["clone-" + cat] = core.clone_jobs(cat, max(60, nr // 2), 5, seed + 41)
         # chained edits of positional fields of connected lines, then removals (SetField)
@@ -22,6 +24,9 @@ def _core(out, tier, seed, prop, quick_mc, thorough_mc, quick_rand, thorough_ran
         for vl in (0, 2, 3):
             jobs["doc-%s-v%d" % (cat, vl)] = core.doc_jobs(cat, max(20, nr // 5), max(3, depth // 2), seed + 2 + vl,
                                                          vlevel=vl, kind="docv%d" % vl)
+    if prop == "C09":
+        for cat in ("ids1", "ids2", "gfa1", "gfa2"):
+            jobs["renall2-" + cat] = core.rename_jobs(cat, nr // 2, seed + 52, kind="renall2")
     if prop == "C08":
         # level 3 refuses more (invalid values): a larger share of histories at that level
         for cat in ("gfa1", "gfa2"):
@@ -85,6 +90,8 @@ def check_c16(out, tier, seed):
     nr = 150 if tier == "quick" else 3000
     for cat in ("topo1", "topo2", "gfa1", "gfa2"):
         jobs["doc-" + cat] = c.doc_jobs(cat, nr, 4, seed)
+        # edges taken out, edited (intervals / orientations / ends) and added again; edits of connected lines
+        jobs["edit-" + cat] = c.edit_jobs(cat, nr, 7, seed + 5, complete=True)
     c.run_pipeline(out, jobs, mc, "C16")
     out.assumptions += ["TLC; Components/N* operators of spec/Gfa.tla", "harness/project.py"]
 
@@ -342,7 +349,8 @@ def check_c13(out, tier, seed):
     for catname, dialect, cfgv in plan:
         cat = c.CATALOGUES[catname]
         ops = [o for o in c.build_ops(cat) if o["k"] == "add"]
-        for vlevel in ((1,) if tier == "quick" else (1, 3)):
+        # level 0 skips the cross-check between a VN header and the content (documented), nothing else
+        for vlevel in (((1, 0) if catname == "ver" else (1,)) if tier == "quick" else (1, 3, 0)):
             wd = tlc.workdir("ver-%s-%s-%d" % (catname, cfgv, vlevel))
             cj, _ = c.catalog_json(catname, depth, cfgv, vlevel, ops)
             cj["cfg"]["dialect"] = dialect
@@ -430,6 +438,26 @@ def check_c10(out, tier, seed):
     n = 40 if tier == "quick" else 600
     for cat in ("gfa1", "gfa2", "perm1", "perm2"):
         jobs += [interleave(j) for j in c.doc_jobs(cat, n, 3, seed)]
+    # states in which the version is still undecided and lines wait in the queue: a query must not
+    # decide it (nor deliver the queue)
+    for cat in ("ver", "kfq"):
+        for j in c.random_jobs(cat, n, 4, seed + 3, kind="randq"):
+            ops = []
+            for op in j["ops"]:
+                gs = list(queries.GROUPS)
+                rnd.shuffle(gs)
+                ops += [op] + [Qop(g) for g in gs[:4]]
+            jobs.append(dict(j, ops=ops, id="q" + j["id"]))
+    # answers must not depend on whether the question was asked before: the same history with the
+    # queries after every call and with the queries at the end only gives the same final answers;
+    # here: queries between the lines of multi-line groups and of the groups listing them
+    for cat in ("permg", "gfa2s"):
+        for j in c.doc_jobs(cat, n, 2, seed + 4, kind="docq"):
+            ops = []
+            for op in j["ops"]:
+                ops += [op, Qop("groups"), Qop("collections")]
+            jobs.append(dict(j, ops=ops + [Qop("groups")], id="q" + j["id"]))
+            jobs.append(dict(j, ops=list(j["ops"]) + [Qop("groups")], id="qe" + j["id"]))
     # every state of the TLC state graph of the small catalogues (as histories)
     for cat, depth in ([("gfa1s", 2), ("gfa2s", 2)] if tier == "quick" else [("gfa1s", 3), ("gfa2s", 3)]):
         leaves, ops, st, nh = c.mc_histories(cat, depth, "mc-C10-%s" % cat)
@@ -442,6 +470,18 @@ def check_c10(out, tier, seed):
     traces = list(r["by_id"].values())
     by_id = r["by_id"]
     nq = sum(1 for t in traces for e in t["ev"] if e["op"]["k"] == "query")
+    # the same history with and without the intermediate questions: the last answers agree
+    pairs = []
+    for tid, t in by_id.items():
+        if tid.startswith("qe") and ("q" + tid[2:]) in by_id:
+            a, b = t, by_id["q" + tid[2:]]
+            if a["ev"] and b["ev"] and a["ev"][-1].get("adig") and b["ev"][-1].get("adig"):
+                pairs.append({"id": b["id"], "digs": [a["ev"][-1]["adig"], b["ev"][-1]["adig"]], "res": ["-", "-"]})
+    hrej, npairs = c.validate_equal_groups(pairs, "hist-C10", "query-history")
+    out.add_cov(history_pairs_compared=npairs)
+    for tid, ev, clauses, phase in hrej:
+        t = by_id[tid]
+        r["rejects"].append((tid, len(t["ev"]), clauses, phase))
     for tid, ev, clauses, phase in r["rejects"]:
         t = by_id[tid]
         props = c.attribute(clauses, "query")
